@@ -26,12 +26,10 @@ func Prefix(strs ...string) string {
 			short = s
 		}
 	}
-	prefx_array := []string{}
 	prefix := ""
 	old_prefix := ""
 	for i := 0; i < len(short); i++ {
-		prefx_array = append(prefx_array, string(short[i]))
-		prefix = strings.Join(prefx_array, "")
+		prefix = short[:i+1]
 		for _, s := range strs {
 			if !strings.HasPrefix(s, prefix) {
 				return old_prefix
